@@ -261,7 +261,7 @@ type batchResult struct {
 	Strategies map[string]int
 	Triggers   map[string]int
 	Steps      int64
-	SimNs      int64
+	SimNs      float64
 	WallS      float64
 	Violating  []*sim.RunResult
 	Samples    []*sim.RunResult
@@ -750,7 +750,8 @@ func writeEvidence(prop, tier string, seed uint64, b *built, batches []*batchRes
 	faults := map[string]int{}
 	probes := map[string]int{}
 	strategies := map[string]int{}
-	var steps, simNs int64
+	var steps int64
+	var simNs float64
 	var exploreWall float64
 	var samples []interface{}
 	batchInfo := []map[string]interface{}{}
